@@ -246,6 +246,8 @@ func (e *Engine) runPath(fn *ssa.Function, prefix []uint64, base Options) {
 	e.pc = nil
 	e.prefix = prefix
 	e.decisions = nil
+	e.decided = map[uint32]bool{}
+	e.uniq = map[uint32]uniqRes{}
 	e.steps = 0
 	e.fresh = map[string]int{}
 	e.notes = e.res.Notes
@@ -271,7 +273,7 @@ func (e *Engine) runPath(fn *ssa.Function, prefix []uint64, base Options) {
 				end = r.why
 			case unsupported:
 				end = "unsupported"
-				msg := string(r)
+				msg := string(r) + e.where()
 				dup := false
 				for _, u := range e.res.Unsupported {
 					if u == msg {
